@@ -898,6 +898,9 @@ package agent
 //@ prop C04
 //@ modifies *
 //@ at call SendToPeer assert !c04data($2.Type)
+//@ at call closePendingOpen assert $1 != nil
+//@ at call closePendingOpenWS assert $1 != nil
+//@ note a refusal from the exit never completes the open successfully: the waiter gets an error, so the keyless (plaintext) path of the relay functions is not entered through an OPEN_ERR
 
 //@ func (*Agent).handleKeepalive
 //@ prop C04
@@ -930,6 +933,8 @@ package agent
 //@ prop C04
 //@ modifies *
 //@ at call SendToPeer assert !c04data($2.Type)
+//@ at call closePendingOpen assert $1 != nil
+//@ note a refusal from the exit never completes the open successfully (see handleICMPOpenErr)
 
 //@ func (*Agent).sendControlResponse
 //@ prop C04
@@ -959,6 +964,8 @@ package agent
 //@ after call Encrypt let c04ct = $ret0
 //@ at call SendToPeer assert $2.Type == protocol.FrameStreamData && $2.Payload == c04ct
 
+//@ census[C04] closePendingOpen in (*Agent).handleUDPOpenAck, (*Agent).handleUDPOpenErr, (*Agent).handleICMPOpenAck, (*Agent).handleICMPOpenErr, (*Agent).createDestAssociation, (*Agent).CreateICMPSession
+//@ census[C04] closePendingOpenWS in (*Agent).handleICMPOpenAck, (*Agent).handleICMPOpenErr, (*Agent).OpenICMPSession
 //@ census[C04] SendToPeer in (*Agent).CloseICMPSession, (*Agent).CreateICMPSession, (*Agent).DialContext, (*Agent).DialForward, (*Agent).DownloadFile, (*Agent).DownloadFileStream, (*Agent).OpenICMPSession, (*Agent).OpenShellStream, (*Agent).RelayICMPEcho, (*Agent).RelayUDPDatagram, (*Agent).SendControlRequestWithData, (*Agent).UploadFile, (*Agent).WriteICMPClose, (*Agent).WriteICMPEcho, (*Agent).WriteICMPOpenAck, (*Agent).WriteICMPOpenErr, (*Agent).WriteStreamClose, (*Agent).WriteStreamData, (*Agent).WriteStreamOpenAck, (*Agent).WriteStreamOpenErr, (*Agent).WriteUDPClose, (*Agent).WriteUDPDatagram, (*Agent).WriteUDPOpenAck, (*Agent).WriteUDPOpenErr, (*Agent).closeDestAssociation, (*Agent).closeWSICMPSession, (*Agent).createDestAssociation, (*Agent).dialViaDomainRouteWithContext, (*Agent).forwardShellClientData, (*Agent).handleControlRequest, (*Agent).handleControlResponse, (*Agent).handleICMPClose, (*Agent).handleICMPEcho, (*Agent).handleICMPOpen, (*Agent).handleICMPOpenAck, (*Agent).handleICMPOpenErr, (*Agent).handleKeepalive, (*Agent).handleStreamClose, (*Agent).handleStreamData, (*Agent).handleStreamOpen, (*Agent).handleStreamOpenAck, (*Agent).handleStreamOpenErr, (*Agent).handleStreamReset, (*Agent).handleUDPClose, (*Agent).handleUDPDatagram, (*Agent).handleUDPOpen, (*Agent).handleUDPOpenAck, (*Agent).handleUDPOpenErr, (*Agent).runWSICMPSender, (*Agent).sendControlResponse, (*Agent).sendICMPOpenErr, (*Agent).sendUDPOpenErr, (*meshConn).Close, (*meshConn).CloseWrite, (*meshConn).Write
 //@ census[C04] (*Connection).WriteFrame in -
 //@ census[C04] (*Connection).SendData in -
